@@ -14,7 +14,7 @@ CHECKS = {
              text="Agreement of quoter and parser is a for-all-strings property and envelope derivation a for-all-headers property; all strings of the bounded alphabet and all compositions of the grammar templates up to the bound are executed on the real functions/program and compared with the identity / the constructed mailboxes.",
              note=SEQ_NOTE + "; " + VK_NOTE),
  "C07": dict(engine="VK", category="fault_enumeration", design_ref="4/C07",
-             technique="exhaustive enumeration, on the real qmail-smtpd/qmail-qmtpd/qmail-qmqpd with the real qmail.c under the virtual kernel, of every queue-program exit status 0..255 (+82 texts, crash, real qmail-queue), a client disconnect after every byte, size/hop/address-length/NUL/framing boundary cases, multi-message QMTP connections and every hostile peer string up to length 3-4; acknowledgement compared with what a recording queue stand-in committed",
+             technique="exhaustive enumeration, on the real qmail-smtpd/qmail-qmtpd/qmail-qmqpd with the real qmail.c under the virtual kernel, of every queue-program exit status 0..255 (+82 texts, crash, real qmail-queue), a client disconnect after every byte, size/hop/address-length/NUL/framing boundary cases, multi-message QMTP connections, every hostile peer string up to length 3-4 and every one/two failing fork/pipe/exec/read/write calls; acknowledgement compared with what a recording queue stand-in committed",
              text="'Never say 250/K unless queued' must hold for every failure point; every exit status, every cut point and every boundary case is executed on the real daemons and the acknowledgement is compared with the bytes the queue program actually committed.",
              note=VK_NOTE + "; the queue program is a stand-in following qmail-queue(8)'s abort-on-incomplete-envelope rule (validated against the real qmail-queue in one family)"),
  "C08": dict(engine="SEQ", category="model_checking", design_ref="4/C08",
@@ -74,7 +74,7 @@ CHECKS = {
              text="Rule precedence only shows where several rules match at once; the full subset product of a pool that contains every rule kind (user, domain, nested wildcards, catch-all, exceptions, locals, percent hack) makes every such overlap occur, and every address of the pool is routed under every configuration and compared with the model.",
              note=SEQ_NOTE + "; the order-preserving partition of recipients into local/remote files by todo_do is observed by the VK queue scenarios, not here"),
  "C09": dict(engine="SEQ", category="exploration", design_ref="4/C09",
-             technique="depth-first enumeration of the full tree of scripted SMTP server behaviours (reply classes/forms, garbage, disconnect, stall at every phase, 1-3 recipients, read-split/ahead-of-time/write-failure variants) through the real smtp()/smtpcode()/blast(), chained into the real qmail-rspawn report(); report() alone on every (status, output<=6/7 bytes); preemption-bounded exhaustive interleaving of the real qmail-rspawn/qmail-lspawn with a scripted delivery program (9 fates: prints a report, closes its output, then exits 0/1/100/111 or is killed) under the virtual kernel",
+             technique="depth-first enumeration of the full tree of scripted SMTP server behaviours (reply classes/forms, garbage, disconnect, stall at every phase, 1-3 recipients, read-split/ahead-of-time/write-failure variants) through the real smtp()/smtpcode()/blast(), chained into the real qmail-rspawn report(); report() alone on every (status, output<=6/7 bytes); preemption-bounded exhaustive interleaving of the real qmail-rspawn/qmail-lspawn with a scripted delivery program (9 fates: prints a report, closes its output, then exits 0/1/100/111 or is killed) under the virtual kernel; the real qmail-remote process with scripted resolver answers (13 DNS situations), connect() outcomes (5 per candidate address) and SMTP peer (answer tree incl. closed/stalled connections)",
              text="Every server script of the bounded tree is executed against the real client code and compared with a reference verdict function, so 'never K unless recipient and message were accepted' is decided for all scripts in the bound rather than for samples; the spawner's folding routine is covered over its whole small input space.",
              note=SEQ_NOTE + "; " + VK_NOTE),
  "C15": dict(engine="SEQ", category="exploration", design_ref="4/C15",
@@ -82,11 +82,11 @@ CHECKS = {
              text="The arithmetic facts are decided for the complete 32-bit domain; the heap is explored over all operation sequences up to the depth, which includes every heap shape of up to depth elements; the daemon-level schedule is explored on the real qmail-send under the virtual kernel and clock.",
              note=SEQ_NOTE + "; " + DAEMON_NOTE),
  "C05": dict(engine="SEQ", category="exploration", design_ref="4/C05",
-             technique="bounded-exhaustive enumeration of every byte stream over {CR,LF,'.',a[,R|SP]} (length<=10 quick, <=12 thorough) and every read chunking through the real blast()/commands() of qmail-smtpd.c against an RFC 5321 reference receiver; every message through a reference sender and the real qmail-remote encoder into the real decoder",
+             technique="bounded-exhaustive enumeration of every byte stream over {CR,LF,'.',a[,R|SP]} (length<=10 quick, <=12 thorough) and every read chunking through the real blast()/commands() of qmail-smtpd.c against an RFC 5321 reference receiver; every message through a reference sender and the real qmail-remote encoder into the real decoder; every payload up to length 5/7 through the real qmail-smtpd process under the virtual kernel with a recording queue program",
              text="All strings of the bounded space are executed on the real decoder (function level and through the real command loop), so within the bound the for-all-inputs statement is decided, not sampled; the recogniser has 5 states and looks at one byte at a time, so length 10-12 over the 4 relevant byte classes exercises every state/byte transition in every context.",
-             note=SEQ_NOTE),
+             note=SEQ_NOTE + "; " + VK_NOTE),
  "C06": dict(engine="SEQ", category="exploration", design_ref="4/C06",
-             technique="bounded-exhaustive enumeration of every message over {CR,LF,'.',a} (length<=10 quick, <=12 thorough), every read chunking and every read-error offset, through the real blast(); oracle = wire invariants + RFC 5321 reference receiver round trip",
+             technique="bounded-exhaustive enumeration of every message over {CR,LF,'.',a} (length<=10 quick, <=12 thorough), every read chunking and every read-error offset, through the real blast(); oracle = wire invariants + RFC 5321 reference receiver round trip; every message up to length 5/7 (+ hand-written ones) as a queue file through the real qmail-remote process under the virtual kernel to a scripted SMTP server",
              text="Every string of the bounded space is executed on the real encoder, so within the bound this is a complete decision of the for-all-strings property; the bound covers every placement of CR, LF and '.' relative to line starts (the encoder's state depends on at most the previous two bytes).",
              note=SEQ_NOTE),
 }
